@@ -38,3 +38,37 @@ Proof.
   specialize (Hh b (Z.to_nat i) Hd Hn). specialize (Rw _ Hh).
   rewrite Z2Nat.id in Rw by lia. exact Rw.
 Qed.
+
+(* non-vacuity of [chain_then_resume_identical]: a history with writes, marks, a
+   complete flush, a further write and a kill; the byte-level disk state it
+   stands for; the resumed run *)
+Definition ex_hist : list Crash.ev :=
+  [Crash.Write 0 0; Crash.Mark 0 0; Crash.Write 0 1; Crash.Mark 0 1;
+   Crash.FlushBegin 0; Crash.FlushTmp 0; Crash.FlushRename 0;
+   Crash.Write 0 2; Crash.FlushBegin 0; Crash.FlushTmpTorn 0; Crash.Restart 0 true].
+Definition ex_src : list Z := [1; 2; 3; 4; 5].
+Definition ex_rq : request := mkRq [97] 5 2 1.
+Definition ex_disk : disk := mkDisk (Some ex_src) (Some (serialise (mkSc 2 5 3 [97] [3]))) None.
+
+Example chain_example :
+  exists s' x br o,
+    Crash.run (map Crash.fresh [3%nat]) ex_hist = Some s' /\ nth_error s' 0 = Some x /\
+    Crash.disk x = Some [true; true; false] /\
+    recv_begin crc32c ex_rq ex_disk = Ret br /\
+    resume_outcome crc32c ex_rq ex_disk ex_src 1 false = Ret o /\
+    refines 2 x (br_file br) ex_src (sc_bitmap (br_sc br)) (br_total br) /\
+    o_sent o = [1; 2] /\ o_file o = ex_src.
+Proof.
+  eexists. eexists. eexists. eexists.
+  split; [vm_compute; reflexivity|]. split; [vm_compute; reflexivity|].
+  split; [vm_compute; reflexivity|]. split; [vm_compute; reflexivity|].
+  split; [vm_compute; reflexivity|]. split; [|split; vm_compute; reflexivity].
+  split.
+  - intros i _. destruct i as [|[|[|i]]]; vm_compute; reflexivity.
+  - intros i Hi Hb. cbn in Hi.
+    assert (Hc : i = 0 \/ i = 1 \/ i = 2) by lia.
+    destruct Hc as [E|[E|E]]; subst i.
+    + exists [true; true; false]. split; reflexivity.
+    + exists [true; true; false]. split; reflexivity.
+    + vm_compute in Hb. discriminate.
+Qed.
